@@ -300,7 +300,7 @@ func init() { regReplay("C10", checkC10) }
 // generator of template trees
 
 // names: ASCII, digits, '-' and '_', Latin-1, and letters whose case mapping changes the UTF-8 length
-var c10Names = []string{"a", "b", "name", "X1", "long_name", "user-id", "é", "n0", "Ⱥb", "ẞx", "İd", "ǅ"}
+var c10Names = []string{"a", "b", "name", "X1", "long_name", "user-id", "é", "n0", "Ⱥb", "ẞx", "İd", "ǅ", "2fa", "1st", "9", "_x", "a-"}
 
 func genText(t *rapid.T, afterTag bool) string {
 	n := rapid.IntRange(1, 8).Draw(t, "tn")
